@@ -292,8 +292,14 @@ def analyse(repo: Repo, fi: FuncInfo, node: Node, call: ast.Call, facts=None, ca
     if facts is None:
         facts = must_facts(fi.cfg)
     F = facts[node.id]
+    from .x_resolve import resolve as _resolve
     operand = call.args[0]
     optext = q.unparse(operand)
+    if isinstance(operand, ast.Name):
+        # look through a local bound once to m.group(k) / m[k] / an element of m.groups() or m.group(i, j)
+        r0 = _resolve(fi, operand)
+        if _group_operand(r0) is not None:
+            operand = r0
     lang: Optional[_rx.Rx] = None
 
     # (b) capture group of a match object
